@@ -33,6 +33,9 @@ def configs(tier, seed):
     cfgs.append({"kind": "wb_eq", "feats": subsets})
     for k in ("mux", "csr_decoder", "csr_bridge", "event_monitor", "gpio", "wb_csr_bridge", "wb_decoder", "sram", "arbiter"):
         cfgs.append({"kind": "connect", "what": k})
+    # memories of exactly one row (the smallest the documentation allows: size * granularity == data_width), default granularity
+    for geom in ((4, 32, 8), (2, 16, 8), (2, 32, 16), (8, 64, 8), (4, 32, None), (2, 8, None)):
+        cfgs.append({"kind": "connect", "what": "sram", "sram": list(geom)})
     # the components that take a feature set: every legal spelling of it (list, one-shot generator, frozenset of Feature members,
     # mixed tuple) must give the port the signature wishbone.Signature builds from the same parameters
     for k in ("wb_decoder", "arbiter"):
@@ -257,7 +260,12 @@ def check_config(ctx, cfg):
                     bad["connects"].append(f"wb_decoder(features spelled #{cfg.get('spell', 0)} {cfg.get('feats', ALLF)}): port signature {port.signature!r} is not {want_sig!r}")
             else:
                 from amaranth_soc.wishbone.sram import WishboneSRAM
-                comp = WishboneSRAM(size=16, data_width=32, granularity=8); port = comp.wb_bus
+                sz, dwid, gr = cfg.get("sram", (16, 32, 8))
+                comp = WishboneSRAM(size=sz, data_width=dwid, granularity=gr); port = comp.wb_bus
+                rows = sz * (gr or dwid) // dwid
+                want_sig = wishbone.Signature(addr_width=(rows - 1).bit_length(), data_width=dwid, granularity=gr)
+                if port.signature != want_sig:
+                    bad["connects"].append(f"WishboneSRAM{cfg.get('sram')}: port signature {port.signature!r} is not {want_sig!r}")
             ini = wishbone.Interface(addr_width=port.addr_width, data_width=port.data_width, granularity=port.granularity,
                                      features=cfg.get("feats", port.features) if what == "wb_decoder" else port.features, path=("ini",))
             m.submodules.c = comp
